@@ -38,9 +38,10 @@ B_GIR = ('<?xml version="1.0"?>\n<repository version="1.2" xmlns="http://www.gtk
          '<field name="in" writable="1"><type name="Inner" c:type="BInner"/></field></record>\n'
          '<record name="Wide" c:type="BWide"><field name="w" writable="1"><type name="gdouble" c:type="gdouble"/></field>'
          '<field name="z" writable="1"><type name="gint8" c:type="gint8"/></field></record>\n'
+         '<record name="Handle" c:type="BHandle" disguised="1" pointer="1"/>\n'
          '</namespace>\n</repository>\n')
 B_C = ('typedef struct { signed char a; } BInner; typedef struct { signed char tag; BInner in; } BMid; '
-       'typedef struct { double w; signed char z; } BWide;')
+       'typedef struct { double w; signed char z; } BWide; typedef struct _BH *BHandle;')
 B_COQ = {'Inner': '(TStruct [MField (basic %s%%N)])' % cstr('gint8'),
          'Mid': '(TStruct [MField (basic %s%%N); MField (TStruct [MField (basic %s%%N)])])' % (cstr('gint8'), cstr('gint8')),
          'Wide': '(TStruct [MField (basic %s%%N); MField (basic %s%%N)])' % (cstr('gdouble'), cstr('gint8'))}
@@ -64,8 +65,16 @@ class Gen(object):
         if r < 0.58 and self.rng.random() < 0.5:
             return ('foreign', self.rng.choice(['Mid', 'Inner', 'Wide', 'Mid']))
         if r < 0.60:
-            # a record that is a typedef to a pointer: marked disguised="1" (the older spelling) or pointer="1"
+            # a record that is a typedef to a pointer: marked disguised="1" (the older spelling) or pointer="1"; of this namespace
+            # or of the included one (Gdk.Atom used from Gtk)
+            if self.rng.random() < 0.3:
+                return ('fhandle',)
             return ('handle', self.rng.choice(['HandleD', 'HandleP', 'HandleDP']))
+        if r < 0.615:
+            # a gpointer member retyped with (type ...): the GIR names a structure, an enumeration or a basic type, the c:type stays
+            # gpointer / gconstpointer
+            return ('retyped', self.rng.choice(['T.Inner', 'B.Wide', 'B.Inner', 'gint8', 'gdouble'] + (['T.E0'] if self.enums else [])),
+                    self.rng.choice(['gpointer', 'gconstpointer']))
         if r < 0.63 and self.enums:
             return ('enum', self.rng.randrange(len(self.enums)))
         if r < 0.75:
@@ -107,7 +116,19 @@ class Gen(object):
             return self.known(t[2])
         if k in ('struct', 'union'):
             return all(self.known(f) for f in self.decls[t[1]][1])
+        if k == 'nonintro':
+            return self.known(t[1])
         return True
+
+    def has_nonintro(self, t):
+        k = t[0]
+        if k == 'nonintro':
+            return True
+        if k == 'array':
+            return self.has_nonintro(t[2])
+        if k in ('struct', 'union'):
+            return any(self.has_nonintro(f) for f in self.decls[t[1]][1])
+        return False
 
     def gir_type(self, t):
         k = t[0]
@@ -131,6 +152,12 @@ class Gen(object):
             return '<type name="B.%s" c:type="B%s"/>' % (t[1], t[1])
         if k == 'handle':
             return '<type name="T.%s" c:type="T%s"/>' % (t[1], t[1])
+        if k == 'fhandle':
+            return '<type name="B.Handle" c:type="BHandle"/>'
+        if k == 'retyped':
+            return '<type name="%s" c:type="%s"/>' % (t[1], t[2])
+        if k == 'nonintro':
+            return self.gir_type(t[1])
         if k == 'void':
             return '<type name="none" c:type="void"/>'
         raise ValueError(t)
@@ -157,6 +184,8 @@ class Gen(object):
                 if f[0] == 'callback':
                     out.append('<field name="f%d"><callback name="f%d"><return-value transfer-ownership="none">'
                                '<type name="none" c:type="void"/></return-value></callback></field>' % (j, j))
+                elif f[0] == 'nonintro':
+                    out.append('<field name="f%d" introspectable="0" writable="1">%s</field>' % (j, self.gir_type(f)))
                 else:
                     out.append('<field name="f%d" writable="1">%s</field>' % (j, self.gir_type(f)))
             out.append('</%s>' % tag)
@@ -179,6 +208,12 @@ class Gen(object):
             return 'B%s %s' % (t[1], name)
         if k == 'handle':
             return 'T%s %s' % (t[1], name)
+        if k == 'fhandle':
+            return 'BHandle %s' % name
+        if k == 'retyped':
+            return '%svoid *%s' % ('const ' if t[2] == 'gconstpointer' else '', name)
+        if k == 'nonintro':
+            return self.c_decl(t[1], name)
         if k == 'callback':
             return 'void (*%s) (void)' % name
         raise ValueError(t)
@@ -209,7 +244,8 @@ class Gen(object):
         k = t[0]
         if k == 'basic':
             return '(basic %s%%N)' % cstr(BASIC[t[1]][0])
-        if k in ('ptr', 'callback', 'handle'):
+        if k in ('ptr', 'callback', 'handle', 'fhandle', 'retyped', 'nonintro'):
+            # (a member marked introspectable="0" is given the type gpointer by the GIR reader, whatever it is: known finding C08-K2)
             return 'pointer'
         if k == 'enum':
             return '(TEnum %s)' % clist(['(%d)' % v for v in self.enums[t[1]]])
@@ -301,6 +337,13 @@ def main(tier, seed):
             g.decls.append(('struct', [('basic', 'gint8'), ('enum', len(g.enums) - 1), ('basic', 'gint8')]))
             g.decls.append(('struct', [('basic', 'gint8'), ('array', 70000, ('basic', 'gint8')), ('basic', 'gint32')]))
             g.decls.append(('struct', [('array', 70000, ('array', 70000, ('basic', 'gint16'))), ('ptr', 'utf8')]))     # 9.8 GB
+            # members marked introspectable="0" (the scanner marks a long double, an unknown or a hidden type so)
+            g.decls.append(('struct', [('basic', 'gint32'), ('nonintro', ('basic', 'gint32')), ('basic', 'gint32')]))
+            g.decls.append(('struct', [('basic', 'gint8'), ('nonintro', ('foreign', 'Wide')), ('basic', 'gint8')]))
+            g.decls.append(('struct', [('nonintro', ('ptr', 'gpointer')), ('basic', 'gint8')]))          # pointer-sized anyway
+            g.decls.append(('struct', [('basic', 'gint8'), ('fhandle',), ('retyped', 'T.Inner', 'gpointer'), ('retyped', 'B.Wide', 'gconstpointer'),
+                                       ('retyped', 'gint8', 'gpointer'), ('basic', 'gint8')]))
+            g.decls.append(('union', [('fhandle',), ('basic', 'gint16')]))
         tmp = tempfile.mkdtemp(prefix='giv08')
         try:
             res, msg = run_batch(g, exe, tmp)
@@ -317,7 +360,7 @@ def main(tier, seed):
             if i not in impl['D']:
                 ck.tie_broken('correspondence', 'declaration D%d missing from typelib' % i)
                 continue
-            lcases.append(dict(kind=kind, fields=fields, coq=g.coq_members(fields), impl=impl['D'][i],
+            lcases.append(dict(kind=kind, fields=fields, coq=g.coq_members(fields), impl=impl['D'][i], nonintro=g.has_nonintro((kind, i)),
                                gcc=gcc['D'].get(i), cdecl=g.c_decl((kind, i), 'x') and
                                ('%s { %s }' % (kind, ' '.join(g.c_decl(f, 'f%d' % j) + ';' for j, f in enumerate(fields)
                                                              if g.known(f))))))
@@ -406,7 +449,8 @@ def main(tier, seed):
         for i in l_spec:
             c = lcases[i]
             ck.failing_input('stored layout differs from the C compiler\'s (or unknown size not recorded as unknown)',
-                             dict(kind=c['kind'], fields=c['fields']), detail=dict(stored=c['impl'], gcc=c['gcc']))
+                             dict(kind=c['kind'], fields=c['fields']), detail=dict(stored=c['impl'], gcc=c['gcc']),
+                             fid='C08-K2-non-introspectable-member-laid-out-as-pointer' if c.get('nonintro') else None)
         if l_tie:
             c = lcases[l_tie[0]]
             ck.tie_broken('correspondence', 'giroffsets.c disagrees with Model.C08 on %d declarations' % len(l_tie),
